@@ -693,7 +693,7 @@ def desugar_iterator_chains(ft, ads):
     — the sequential, in-order, one-element-at-a-time evaluation that Iterator::map/filter/collect are documented to perform; applied only
     when the closure body contains no return/break/continue/`?` (whose meaning would differ inside a loop).  The closure may mutate
     captured variables (FnMut): the loop body performs the same mutations in the same order."""
-    n21 = n22 = n24 = 0
+    n21 = n22 = n24 = n27 = 0
     n23 = False
     while True:
         sig = ft.sig
@@ -754,6 +754,37 @@ def desugar_iterator_chains(ft, ads):
                     hit = ("D23", es, k, fo, fc, sig[fo + 2].text, cond)
                     break
         if hit is None:
+            # D27: `E.iter().map(|T| F).collect::<Option<Vec<X>>>()?`
+            for k in range(len(sig) - 8):
+                tx = [u.text for u in sig[k:k + 8]]
+                if tx[:6] == [".", "iter", "(", ")", ".", "map"] and tx[6] == "(" and tx[7] == "|":
+                    mo = k + 6
+                    mc = match_close(sig, mo)
+                    tail = [u.text for u in sig[mc + 1:mc + 8]]
+                    if tail[:7] != [".", "collect", ":", ":", "<", "Option", "<"]:
+                        continue
+                    # find the end of the turbofish, then `( ) ?`
+                    q = mc + 5
+                    depth = 0
+                    while q < len(sig):
+                        if sig[q].text == "<":
+                            depth += 1
+                        elif sig[q].text == ">":
+                            depth -= 1
+                            if depth == 0:
+                                break
+                        q += 1
+                    if [u.text for u in sig[q + 1:q + 4]] != ["(", ")", "?"]:
+                        continue
+                    if not (sig[mo + 2].kind == "ident" and sig[mo + 3].text == "|"):
+                        continue
+                    body = sig[mo + 4:mc]
+                    if not body or _has_control_flow(body):
+                        continue
+                    es = _expr_start(sig, k - 1)
+                    hit = ("D27", es, k, mo, mc, q + 3, sig[mo + 2].text, body)
+                    break
+        if hit is None:
             # D24: `R.extend(E.into_iter().map(|V| BODY));` as a statement
             for k in range(len(sig) - 8):
                 tx = [u.text for u in sig[k:k + 3]]
@@ -787,7 +818,15 @@ def desugar_iterator_chains(ft, ads):
                     break
         if hit is None:
             break
-        if hit[0] == "D24":
+        if hit[0] == "D27":
+            _, es, k, mo, mc, qend, t_name, body = hit
+            recv = ft.text[sig[es].s:sig[k - 1].e]
+            btxt = ft.text[body[0].s:body[-1].e]
+            tag = f"d27_{n27}"
+            rep = f"{{ let mut {tag}_out = Vec::new(); for {t_name} in {recv}.iter() {{ {tag}_out.push(({btxt})?); }} {tag}_out }}"
+            ft.edits.append((sig[es].s, sig[qend].e - sig[es].s, rep))
+            n27 += 1
+        elif hit[0] == "D24":
             _, rs, k, eo, ec, mi, mo, mc, v_name, body = hit
             recv = ft.text[sig[rs].s:sig[k - 1].e]
             src = ft.text[sig[eo + 1].s:sig[eo + 1 + mi - 1].e]
@@ -827,6 +866,8 @@ def desugar_iterator_chains(ft, ads):
         ft.relex()
     if n21:
         ads.append({"rule": "D21", "what": f"{n21} `.into_iter().enumerate().map(|(i, x)| ..).collect_vec()` chain(s) desugared to an explicit loop pushing onto a Vec"})
+    if n27:
+        ads.append({"rule": "D27", "what": f"{n27} `e.iter().map(|t| f(t)).collect::<Option<Vec<_>>>()?` desugared to a loop pushing `f(t)?` (collect into Option stops at the first None, and `?` then returns it: the same early return)"})
     if n24:
         ads.append({"rule": "D24", "what": f"{n24} statement(s) `set.extend(e.into_iter().map(|v| f(v)));` desugared to `for v in e {{ set.insert(f(v)); }}` (Extend inserts the items in iteration order)"})
     if n23:
